@@ -99,7 +99,7 @@ def warm():
     prepareUpdate("INSERT DATA { <urn:a> <urn:b> <urn:c> }")
 
 
-UPDATES = ["insert-data", "delete-where", "copy-p-to-q", "delete-insert", "insert-initbinding"]
+UPDATES = ["insert-data", "delete-where", "copy-p-to-q", "delete-insert", "insert-initbinding", "two-ops-initbinding", "filter-initbinding"]
 
 
 def generate(seed, tier):
@@ -565,6 +565,32 @@ def _execute(trace, ctx):
                 def th(t=t, gk=gk):
                     model.setdefault(gk, set()).add(tuple(skey(x) for x in t))
 
+            elif what == "two-ops-initbinding":
+                # two operations in one request, the binding holds in both WHERE clauses
+                from rdflib import Variable
+
+                text = f"DELETE {{ {s_} {p_} ?val . }} WHERE {{ {s_} {p_} ?val . }} ;\nINSERT {{ ?s <{EX}marked> ?val . }} WHERE {{ ?s {p_} ?val . }}"
+                upd_kwargs = {"initBindings": {Variable("val"): T(t[2])}}
+                ctx.probe("update-with-initBindings")
+
+                def th(t=t, gk=gk):
+                    cur = model.setdefault(gk, set())
+                    cur.discard(tuple(skey(x) for x in t))
+                    for x in list(cur):
+                        if x[1] == skey(t[1]) and x[2] == skey(t[2]):
+                            cur.add((x[0], ("u", EX + "marked"), x[2]))
+
+            elif what == "filter-initbinding":
+                # the bound variable is used by a FILTER of the WHERE clause
+                from rdflib import Variable
+
+                text = f"DELETE {{ ?s {p_} ?o . }} WHERE {{ ?s {p_} ?o . FILTER(sameTerm(?o, ?val)) }}"
+                upd_kwargs = {"initBindings": {Variable("val"): T(t[2])}}
+                ctx.probe("update-with-initBindings")
+
+                def th(t=t, gk=gk):
+                    model[gk] = {x for x in model.get(gk, set()) if not (x[1] == skey(t[1]) and x[2] == skey(t[2]))}
+
             else:
                 text = f"DELETE {{ {s_} {p_} ?o . }} INSERT {{ {s_} {p_} {o_} . }} WHERE {{ OPTIONAL {{ {s_} {p_} ?o . }} }}"
 
@@ -574,6 +600,10 @@ def _execute(trace, ctx):
 
             if gk != DEFK:
                 ctx.probe("contextual-update")
+            if op["uid"] % 4 == 0:
+                # the text ends in a comment (no line end after it): what is queued after it is still sent
+                text += " # done } {" if op["uid"] % 8 else " # done"
+                ctx.probe("update-text-ends-in-comment")
             write(op, th, lambda: handle(op["g"]).update(text, **upd_kwargs))
             writes_since[0] += 1
         elif k == "add-bnode":
